@@ -1193,6 +1193,7 @@ pub fn check_c17_system(obs: &Observation) -> V {
     let timeout_ms = crate::world::INACTIVE_TIMEOUT.as_millis() as u64;
     let t = |step: u64| -> u64 { obs.times.get(step as usize).or(obs.times.last()).copied().unwrap_or(0) };
     let stop_step: Option<u64> = obs.truth.iter().find(|(_, e)| matches!(e, Truth::Stop)).map(|(s, _)| *s);
+    let clean = !obs.dirty_advance;
     // classified cause: every remote had already been pruned (no links for prune_remote_delay), in
     // which case the write task ends on its own timeout without consulting the coordinator
     let pruned = if !obs.remotes.is_empty() && obs.remotes.iter().all(|r| r.completion_reason.as_deref() == Some("RemoteTimedOut")) {
@@ -1200,49 +1201,82 @@ pub fn check_c17_system(obs: &Observation) -> V {
     } else {
         ""
     };
-    // (S1) no stop while an envelope was delivered less than the timeout ago
-    if let Some(p) = stop_step {
-        for (ri, r) in obs.remotes.iter().enumerate() {
-            for (s, st) in r.sent.iter().filter(|(s, st)| *s < p && !matches!(st, Step::Wait(_))) {
-                let dt = t(p).saturating_sub(t(*s));
-                if dt > 0 && dt < timeout_ms {
-                    add(
-                        format!("as: agent stopped for inactivity although an envelope was delivered less than the timeout before{}", pruned),
-                        format!("remote {} sent {:?} at step {} (t={} ms); on_stop ran at step {} (t={} ms); timeout {} ms", ri, st, s, t(*s), p, t(p), timeout_ms),
-                    );
-                }
-            }
+    const LANES: [&str; 8] = ["v", "w", "t", "m", "s", "c", "k", "zz"];
+    let _ = LANES;
+    // every envelope (read task activity), in step order
+    let mut envs: Vec<(u64, &Step)> = obs.remotes.iter().flat_map(|r| r.sent.iter()).filter(|(_, st)| !matches!(st, Step::Wait(_))).map(|(s, st)| (*s, st)).collect();
+    envs.sort_by_key(|(s, _)| *s);
+    // what certainly reaches the write task: lane events of v, w, t, m, the echo of a command to
+    // c or k, and link / sync / unlink envelopes for lanes that exist
+    let known = |l: &str| matches!(l, "v" | "w" | "t" | "m" | "s" | "c" | "k");
+    let mut wacts: Vec<u64> = vec![0];
+    for (h, e) in &obs.truth {
+        if matches!(e, Truth::Value { lane: "v" | "w" | "t", .. } | Truth::MapUpdate { lane: "m", .. } | Truth::MapRemove { lane: "m", .. } | Truth::MapClear { lane: "m", .. } | Truth::Command { .. }) {
+            wacts.push(*h);
         }
     }
-    // (S1b) nor while one of the agent's lanes changed less than the timeout ago
+    for (s, st) in &envs {
+        if matches!(st, Step::Link(l) | Step::Sync(l) | Step::Unlink(l) if known(l)) {
+            wacts.push(*s);
+        }
+    }
+    wacts.sort();
     if let Some(p) = stop_step {
+        // (S1) no stop less than the timeout after an envelope was delivered. Claimed only if the
+        // clock moved only while the runtime was idle: then the envelope had been read when it
+        // was sent. (After a clock advance with work pending an envelope may still be unread - or a
+        // lane event still in the agent task's hands - when all votes are cast; the harness cannot
+        // see which, so nothing is claimed for such executions.)
+        let mut prev_env_t = 0u64;
+        for (s, st) in envs.iter().filter(|(s, _)| *s < p) {
+            let dt = t(p).saturating_sub(t(*s));
+            let gap = t(*s).saturating_sub(prev_env_t);
+            if dt > 0 && dt < timeout_ms && clean {
+                let _ = gap;
+                add(
+                    format!("as: agent stopped for inactivity although an envelope was delivered less than the timeout before{}", pruned),
+                    format!("{:?} sent at step {} (t={} ms, previous envelope at t={} ms); on_stop ran at step {} (t={} ms); timeout {} ms; clock moved only while idle: {}", st, s, t(*s), prev_env_t, p, t(p), timeout_ms, clean),
+                );
+            }
+            prev_env_t = t(*s);
+        }
+        // (S1b) nor less than the timeout after one of the agent's lanes changed (same restriction:
+        // the write task takes ready lane events before it looks at its timer)
         for (h, e) in obs.truth.iter().filter(|(h, _)| *h < p) {
             let lane_event = matches!(e, Truth::Value { lane: "v" | "w" | "t", .. } | Truth::MapUpdate { lane: "m", .. } | Truth::MapRemove { lane: "m", .. } | Truth::MapClear { lane: "m", .. });
+            if !lane_event {
+                continue;
+            }
             let dt = t(p).saturating_sub(t(*h));
-            if lane_event && dt > 0 && dt < timeout_ms {
+            let prev = wacts.iter().filter(|a| **a < *h).map(|a| t(*a)).max().unwrap_or(0);
+            let gap = t(*h).saturating_sub(prev);
+            if dt > 0 && dt < timeout_ms && clean {
+                let _ = gap;
                 add(
                     "as: agent stopped for inactivity although one of its lanes changed less than the timeout before".into(),
-                    format!("{:?} at step {} (t={} ms); on_stop ran at step {} (t={} ms); timeout {} ms", e, h, t(*h), p, t(p), timeout_ms),
+                    format!("{:?} at step {} (t={} ms, previous write-task activity at t={} ms); on_stop ran at step {} (t={} ms); timeout {} ms; clock moved only while idle: {}", e, h, t(*h), prev, p, t(p), timeout_ms, clean),
                 );
             }
         }
     }
     // (S3) a command delivered at an earlier instant than the stop was handled
-    let t_stop = stop_step.map(t);
-    let sent_c = obs.remotes.iter().flat_map(|r| r.sent.iter()).filter(|(s, st)| matches!(st, Step::Cmd(l, _) if l == "c") && t_stop.map(|ts| t(*s) < ts).unwrap_or(true)).count();
-    let handled_c = obs.truth.iter().filter(|(_, e)| matches!(e, Truth::Command { lane: "c", .. })).count();
-    if handled_c < sent_c && obs.remotes.iter().all(|r| r.write_failed.is_none()) {
-        add(
-            "as: a command delivered before the inactivity stop began was never handled".into(),
-            format!("{} command(s) to lane c delivered at an earlier instant than the stop, {} handled", sent_c, handled_c),
-        );
+    if clean {
+        let t_stop = stop_step.map(t);
+        let sent_c = obs.remotes.iter().flat_map(|r| r.sent.iter()).filter(|(s, st)| matches!(st, Step::Cmd(l, _) if l == "c") && t_stop.map(|ts| t(*s) < ts).unwrap_or(true)).count();
+        let handled_c = obs.truth.iter().filter(|(_, e)| matches!(e, Truth::Command { lane: "c", .. })).count();
+        if handled_c < sent_c && obs.remotes.iter().all(|r| r.write_failed.is_none()) {
+            add(
+                "as: a command delivered before the inactivity stop began was never handled".into(),
+                format!("{} command(s) to lane c delivered at an earlier instant than the stop, {} handled", sent_c, handled_c),
+            );
+        }
     }
     // (S4) a stop that has begun completes
     if stop_step.is_some() && obs.alive_at_end {
         add("as: the agent ran on_stop but the runtime never completed".into(), format!("on_stop at step {:?}", stop_step));
     }
-    // (S2) every task idle for two full timeouts: the runtime has stopped
-    if obs.ticks_done >= 2 && obs.alive_at_end && stop_step.is_none() {
+    // (a liveness expectation that goes beyond the letter of C17: only reported on request)
+    if std::env::var("VERIF_LIVENESS").is_ok() && obs.ticks_done >= 2 && obs.alive_at_end && stop_step.is_none() {
         add(
             "as: agent still running after every task was idle for two full inactivity timeouts".into(),
             format!("ticks {} steps {}", obs.ticks_done, obs.steps),
